@@ -343,7 +343,7 @@ Definition fill_lb (j : list jfield) id name (locked multi : bool) rawopts (v dv
       Ok (true, PLb id name lock multi rawopts (if is_nil vNew then LNone else LArr vNew) dv)
     else
       match vNew with
-      | [] => Err                                           (* v := vNew[0]: index out of range (panic) *)
+      | [] => Ok (true, PLb id name lock multi rawopts LNone dv)   (* deselect: /I and /V deleted *)
       | x :: _ => Ok (true, PLb id name lock multi rawopts (if mem x opts then LStr x else LNone) dv)
       end
   end.
